@@ -24,7 +24,9 @@ EXPLANATION = (
     "parsed error for its column; "
     "(h) iter_bins, iter_bins_with_edges, get_bin_edges, iter_cells and hist_to_graph pair a cell's content, index and edges through one "
     "and the same index variable (low = edges[axis][i], high = edges[axis][i + 1], enumerated forwards), and the left/right/middle "
-    "coordinate of a graph point takes the matching member of (low, high).")
+    "coordinate of a graph point takes the matching member of (low, high); "
+    "(i) recursive numeric helpers (isclose, md_map, ...) pass their unchanged parameters on in place, and scale_to handles a value that "
+    "cannot be rescaled inside its loop over the group.")
 RULES = {
     "C12-a": "GUARD: division by a scale/count is dominated by a zero test that raises LenaValueError",
     "C12-b": "PURE: histogram.add leaves its operands alone and returns a new histogram over copied edges",
@@ -36,6 +38,8 @@ RULES = {
              "names keep the order of the fields (their position is their column)",
     "C12-h": "PAIRING: the cell iterators and hist_to_graph pair a cell's content, index and edges through one and the same index "
              "variable (low = edges[axis][i], high = edges[axis][i + 1]); the left/right/middle coordinate takes the matching member",
+    "C12-i": "PASS-THROUGH: a recursive call of a numeric helper hands every unchanged parameter on in its own position (rel_tol as "
+             "rel_tol, abs_tol as abs_tol); the tolerated per-item failures of scale_to are handled inside the loop over the group",
 }
 HIST = "lena.structures.histogram"
 GRAPH = "lena.structures.graph"
@@ -671,7 +675,65 @@ def check_pairing(ctx):
               construct="hist_to_graph-cells")
 
 
+def check_pass_through(ctx):
+    res = ctx.res
+    n = 0
+    for modname in ("lena.math.utils", "lena.math.meshes", "lena.structures.hist_functions", "lena.context.functions"):
+        mod = ctx.tree.module(modname)
+        for fn in [d for d in mod.tree.body if isinstance(d, ast.FunctionDef)]:
+            formal = A.func_params(fn)
+            if fn.args.vararg or fn.args.kwarg:
+                continue
+            rebound = {x.id for x in A.walk_local(fn, include_self=False) if isinstance(x, ast.Name) and isinstance(x.ctx, ast.Store)}
+            stable = [p for p in formal if p not in rebound]
+            for c in A.walk_local(fn):
+                if not (isinstance(c, ast.Call) and res.call_canon(c) == "%s.%s" % (modname, fn.name)):
+                    continue
+                n += 1
+                bound = {}
+                for k, a in enumerate(c.args):
+                    if k < len(formal):
+                        bound[formal[k]] = a
+                for kw in c.keywords:
+                    if kw.arg:
+                        bound[kw.arg] = kw.value
+                swapped = [(p, a.id) for p, a in bound.items() if isinstance(a, ast.Name) and a.id in stable and p in stable and a.id != p]
+                ctx.check("C12-i", not swapped, c, "%s calls itself with %s: a parameter that the function never changes is handed on in the "
+                          "place of another one (for isclose: the relative tolerance is used as the absolute one one level down, so "
+                          "histogram.add accepts edges that differ and refuses edges that are equal up to rounding)" % (
+                              fn.name, ", ".join("%s=%s" % sw for sw in swapped)),
+                          detail="%s: recursion passes its parameters on in place" % fn.name, construct="recursion-swap:%s" % fn.name)
+    ctx.instances_floor("C12-i", n, 4, "recursive calls in the numeric and dictionary helpers")
+    # scale_to: a value that cannot be rescaled is skipped, the rest of the group is still rescaled
+    fn = ctx.tree.func("lena.flow.group_scale", "scale_to")
+    gp = A.func_params(fn)[1]
+    loops = [l for l in A.walk_local(fn) if isinstance(l, ast.For) and A.src(l.iter) == gp]
+    if ctx.require(len(loops) == 1, "C12-i", fn, "scale_to: the loop over the group was not found"):
+        loop = loops[0]
+        calls = [c for c in A.walk_body(loop.body) if isinstance(c, ast.Call) and isinstance(c.func, ast.Attribute) and c.func.attr == "scale"]
+        ctx.instances_floor("C12-i/scale_to", len(calls), 1, "scale calls in the group loop")
+        for c in calls:
+            tries = []
+            child = c
+            for a in A.ancestors(c):
+                if a is fn:
+                    break
+                if isinstance(a, ast.Try) and any(child is b or child in list(ast.walk(b)) for b in a.body):
+                    tries.append(a)
+                child = a
+            for t in tries:
+                for h in t.handlers:
+                    tolerant = any(q.end != "raise" for q in P.paths_through(h.body))
+                    inside = loop in list(A.ancestors(t))
+                    ctx.check("C12-i", inside or not tolerant, h, "scale_to handles `%s` around the whole loop over the group, not per item: "
+                              "the first value that cannot be rescaled ends the loop silently and every structure after it keeps its old "
+                              "scale" % (A.src(h.type) if h.type is not None else "any exception"),
+                              detail="scale_to: tolerated failure handled per item (%s)" % (A.src(h.type) if h.type is not None else "*"),
+                              construct="handler-outside-loop:%s" % (A.src(h.type) if h.type is not None else "*"))
+
+
 def check(ctx):
+    check_pass_through(ctx)
     check_pairing(ctx)
     check_agreements(ctx)
     check_tocsv_stateless(ctx)
@@ -683,6 +745,7 @@ def check(ctx):
 
 
 VARIANTS = [
+    M("isclose-tolerances-swapped", "lena/math/utils.py", "            if not isclose(el, b[ind], rel_tol, abs_tol):", "            if not isclose(el, b[ind], abs_tol, rel_tol):", ["C12-i"]),
     M("edges-high-is-low", "lena/structures/hist_functions.py", "            edges_high.append(edges[var][var_ind+1])", "            edges_high.append(edges[var][var_ind])", ["C12-h"]),
     M("edges-swapped-zip", "lena/structures/hist_functions.py", "        yield (bin_, tuple(zip(edges_low, edges_high)))", "        yield (bin_, tuple(zip(edges_high, edges_low)))", ["C12-h"]),
     M("iter-bins-neighbour", "lena/structures/hist_functions.py", "            for sub_ind, val in iter_bins(bins[ind]):", "            for sub_ind, val in iter_bins(bins[ind-1]):", ["C12-h"]),
